@@ -94,6 +94,83 @@ def trim(r):
     return r
 
 
+def cli_sample(bins, pid, tier, seed):
+    """The same questions asked through the real CLI: target render (C10), analyze --target-groups,
+    target show -g and run / run -t X --deps on random small configurations with prefix-sharing names,
+    many of them cyclic (uses cycles, uses into a nested target)."""
+    import random, re
+    from concurrent.futures import ThreadPoolExecutor
+    import fixture, runlib
+    n = {"quick": 14, "thorough": 160}[tier]
+    names = ["app", "app2", "app-web", "lib", "lib2", "core", "app/api", "app/api/v2", "lib/net"]
+    def one(i):
+        rng = random.Random(seed * 977 + i)
+        paths = rng.sample(names, rng.randint(3, 7))
+        want_cycle = (pid == "C09") or rng.random() < 0.3
+        ts = []
+        for p in paths:
+            t = {"path": p}
+            others = [q for q in paths if q != p]
+            k = rng.randint(0, 2)
+            if k and pid != "C09" and not want_cycle:
+                # acyclic by construction: only use targets that sort before this one and do not enclose / nest
+                others = [q for q in others if q < p and not p.startswith(q + "/") and not q.startswith(p + "/")]
+            if others and k:
+                t["uses"] = [rng.choice(others) + rng.choice(["", "/src.txt"]) for _ in range(min(k, len(others)))]
+            ts.append(t)
+        rng.shuffle(ts)
+        fx = fixture.Fixture(bins, ts)
+        a_recs, r_recs = [], []
+        try:
+            for t in ts:
+                fx.add_cmd(t["path"], "build", [{"op": "exit", "code": 0}], ext=".sh")
+            fx.git_init()
+            cfg = runlib.cfg_abs(ts)
+            allr = sorted(runlib.P(t["path"]) for t in ts)
+            def groups_of(res, key):
+                if res["rc"] == 0 and isinstance(res["out"], dict) and res["out"].get(key) is not None:
+                    return {"ok": True, "err": "", "groups": [sorted(runlib.P(x) for x in g) for g in res["out"][key]]}
+                return {"ok": False, "err": fx.err_type(res)[0] or "other", "groups": []}
+            for api, args in (("cli_analyze", ["analyze", "--target-groups"]), ("cli_target_show", ["target", "show", "-g"])):
+                r = fx.monorail(args)
+                a_recs.append({"ev": "groups", "config": cfg, "roots": allr, "pruned": False, "changed": [], "out": groups_of(r, "target_groups"), "via": api})
+            dot = os.path.join(fx.root, "g.dot")
+            r = fx.monorail(["target", "render", "-f", dot])
+            if r["rc"] == 0 and os.path.exists(dot):
+                txt = open(dot).read()
+                labels = {int(m.group(1)): m.group(2) for m in re.finditer(r'^(\d+) \[label="(.*)"\];$', txt, re.M)}
+                edges = [[runlib.P(labels[int(m.group(1))]), runlib.P(labels[int(m.group(2))])] for m in re.finditer(r'^(\d+) -> (\d+)', txt, re.M)]
+                a_recs.append({"ev": "edges", "config": cfg, "out": {"ok": True, "nodes": sorted(runlib.P(v) for v in labels.values()),
+                                                                     "edges": sorted(edges)}, "via": "render"})
+            else:
+                a_recs.append({"ev": "edges", "config": cfg, "out": {"ok": False, "err": fx.err_type(r)[0] or "other", "nodes": [], "edges": []}, "via": "render"})
+            # run: all targets, and -t X --deps for one target
+            for mode, named in (("all", []), ("targets_deps", [rng.choice(ts)["path"]])):
+                fx.reset_helper()
+                args = ["run", "-c", "build"] + (["-t"] + named + ["--deps"] if named else [])
+                pre = {"targets": [], "groups": []}
+                if mode == "all":
+                    ra = fx.monorail(["analyze", "--target-groups"])
+                    if ra["rc"] == 0 and ra["out"]:
+                        pre = {"targets": [runlib.P(t) for t in ra["out"]["targets"]], "groups": [[runlib.P(t) for t in g] for g in ra["out"]["target_groups"]]}
+                res = fx.monorail(args)
+                evs = [{"k": e["k"], "c": 1, "t": runlib.P((e.get("id") or {}).get("target", "?")), "code": e.get("code", 0)}
+                       for e in fx.events() if e["k"] in ("start", "end")]
+                doc = runlib.doc_abs(res["out"], 1)
+                base = {"cfg": cfg, "mode": mode, "named": [runlib.P(x) for x in named], "rc": res["rc"] if res["rc"] is not None else -9,
+                        "events": evs, "label": "cli-sample-%d" % i}
+                if doc["ok"]:
+                    r_recs.append(dict(base, ev="run", pre=pre, ncmd=1, fou=False, kinds=[[1, runlib.P(t["path"]), "def"] for t in ts], doc=doc, timeout=False))
+                else:
+                    r_recs.append(dict(base, ev="reject", err=fx.err_type(res)[0] or "other"))
+            return a_recs, r_recs
+        finally:
+            fx.cleanup()
+    with ThreadPoolExecutor(max_workers=8) as ex:
+        out = list(ex.map(one, range(n)))
+    return [r for a, _ in out for r in a], [r for _, b in out for r in b]
+
+
 def run(pid, tier):
     level = "model_checking"
     chk = vlib.Check(pid, tier, level)
@@ -142,6 +219,22 @@ def run(pid, tier):
             records += read_records(os.path.join(tmp, "dagrnd.ndjson"))
             if tier == "thorough":
                 mc_dag(chk, 5, emit=False)
+        # ---- the same through the real CLI (target render / analyze / target show / run)
+        run_fails = []
+        if pid in ("C03", "C09", "C10"):
+            a_recs, r_recs = cli_sample(bins, pid, tier, chk.seed)
+            keep = {"C10": ("edges",), "C03": ("groups",), "C09": ("groups",)}[pid]
+            cli = [r for r in a_recs if r["ev"] in keep]
+            records += cli
+            chk.cov["cli_records"] = len(cli) + (len(r_recs) if pid != "C10" else 0)
+            if pid != "C10":
+                rf, st2, tr2 = vlib.judge("RunJudge", r_recs, shards=2)
+                chk.cov["states"] += st2
+                chk.cov["transitions"] += tr2
+                for rec, whys in rf:
+                    for why in (whys if isinstance(whys, list) else [whys]):
+                        if why.startswith(pid + ":"):
+                            run_fails.append((rec, why))
         # ---- impl -> spec: TLC judges every record
         fails, st_, tr_ = vlib.judge("JudgeA", records, shards=min(vlib.NCPU, max(1, len(records) // 1500)))
         chk.cov["states"] += st_
@@ -163,6 +256,8 @@ def run(pid, tier):
         for rec, why in fails:
             if wanted is None or why in wanted:
                 chk.violation(why, why, rec)
+        for rec, why in run_fails:
+            chk.violation(why, "%s [%s]" % (why, rec.get("label")), rec)
         for r in records:
             if nontrivial(pid, r):
                 chk.sample(trim(r), limit=3)
